@@ -6,7 +6,7 @@ CONSTANTS
   CliIds = {1,2,3}
   SrvIds = {1,2}
   TrackObs = TRUE
-  TrackDeps = FALSE
+  TrackDeps = TRUE
   Dev = "none"
   SetupPlan <- Route_SetupPlan
   RegPlan <- Route_RegPlan
@@ -28,7 +28,7 @@ CONSTANTS
   Splice = FALSE
   Reloads = FALSE
   ExtFail = FALSE
-  MaxFree = 9
+  MaxFree = 7
 INVARIANT Agreement
 INVARIANT ClientAcceptsOnlyMatched
 INVARIANT ServerAcceptsOnlyMatched
